@@ -2,7 +2,8 @@
    traces separated by "trace <id>"; prints per trace
      ACCEPT <id> <n events>     or    REJECT <id> <index> <event line> <reason>
    followed by  STATE <id> <S> told=.. primary=<kst> keys=<k:kst,...> mode=classic|async|onepc|fallback|asyncresolved  for every transaction
-   (state after the last accepted event). Fields are tab separated; the echoed event line has
+   (after ACCEPT: the final state; after REJECT the lines are tagged RSTATE: the state before the rejected event, for
+   diagnosis only — it must not be compared with the store's final state). Fields are tab separated; the echoed event line has
    its tabs replaced by single spaces. *)
 let nh = n_of_hex
 let split_on c s = if s = "-" || s = "" then [] else String.split_on_char c s
@@ -101,7 +102,7 @@ let reason_name r = match r with
   | S_rollback_committed -> "S_rollback_committed" | S_cts_committed -> "S_cts_committed"
   | S_cts_rolledback -> "S_cts_rolledback" | S_cts_locked -> "S_cts_locked" | S_cts_secondary -> "S_cts_secondary"
   | S_csl_locks -> "S_csl_locks" | S_onepc -> "S_onepc" | S_gone -> "S_gone"
-  | S_cts_async -> "S_cts_async" | S_cts_secs -> "S_cts_secs" | S_csl_commit -> "S_csl_commit"
+  | S_cts_async -> "S_cts_async" | S_cts_secs -> "S_cts_secs" | S_csl_commit -> "S_csl_commit" | S_mincommit -> "S_mincommit"
 
 let kst_str (s : sys) (t : n) (k : n) : string =
   match kget s t k with
@@ -110,7 +111,7 @@ let kst_str (s : sys) (t : n) (k : n) : string =
       let alts = List.filter_map (fun (t', c) -> if t' = t then Some (if c = N0 then "rolledback" else "committed:" ^ hex_of_n c) else None) s.s_wr in
       String.concat "|" (("locked:" ^ hex_of_n m) :: List.sort_uniq compare alts)
 
-let dump_state (id : string) (s : sys) : unit =
+let dump_state (tag : string) (id : string) (s : sys) : unit =
   let txns = List.sort_uniq compare (List.map fst s.s_cl @ List.map (fun ((t, _), _) -> t) s.s_kst) in
   List.iter (fun t ->
     let c = getc s t in
@@ -120,16 +121,17 @@ let dump_state (id : string) (s : sys) : unit =
     let ks = if keys = [] then "-" else String.concat "," (List.map (fun k -> hex_of_n k ^ ":" ^ kst_str s t k) keys) in
     let nz f = c.cn f <> N0 in
     let asyncres = List.exists (fun ((t', _), j) -> t' = t && j = JAsync) s.s_rs in
-    let fellback = nz FStFb || (nz FTried1 && nz FFb1) || (nz FTriedA && not (nz FTried1) && nz FFb) in
-    let mode = if fellback then "fallback" else if nz FTried1 then "onepc" else if nz FTriedA then "async" else if asyncres then "asyncresolved" else "classic" in
-    Printf.printf "STATE\t%s\t%s\ttold=%s\tprimary=%s\tkeys=%s\tmode=%s\n" id (hex_of_n t) told prim ks mode) txns
+    let onepc = nz FTried1 && not (nz FFb1) and async = nz FTriedA && not (nz FFb) in
+    let mode = if (nz FTried1 || nz FTriedA) && (nz FStFb || not (onepc || async)) then "fallback"
+               else if onepc then "onepc" else if async then "async" else if asyncres then "asyncresolved" else "classic" in
+    Printf.printf "%s\t%s\t%s\ttold=%s\tprimary=%s\tkeys=%s\tmode=%s\n" tag id (hex_of_n t) told prim ks mode) txns
 
 let () =
   let id = ref "0" and st = ref init and n = ref 0 and dead = ref false and started = ref false in
   let finish () =
     if !started then begin
       if not !dead then Printf.printf "ACCEPT\t%s\t%d\n" !id !n;
-      dump_state !id !st end in
+      dump_state (if !dead then "RSTATE" else "STATE") !id !st end in
   let accepted = ref 0 and rejected = ref 0 in
   let close () = if !started then (if !dead then incr rejected else incr accepted); finish () in
   read_lines (fun line ->
